@@ -1,0 +1,31 @@
+//go:build verif
+
+package leveldb
+
+import (
+	"sync/atomic"
+
+	"github.com/syndtr/goleveldb/leveldb"
+	"github.com/syndtr/goleveldb/leveldb/opt"
+	"github.com/syndtr/goleveldb/leveldb/storage"
+)
+
+var verifHook atomic.Value // func(string)
+
+// SetVerifHook installs the function called at every verifPoint (verification harness only)
+func SetVerifHook(f func(id string)) {
+	verifHook.Store(f)
+}
+
+func verifPoint(id string) {
+	f, _ := verifHook.Load().(func(string))
+	if f != nil {
+		f(id)
+	}
+}
+
+// VerifOpenStorage opens a goleveldb instance over the provided storage with the options the persisters use
+// (verification harness only: crash-image recording through a wrapped storage)
+func VerifOpenStorage(stor storage.Storage) (*leveldb.DB, error) {
+	return leveldb.Open(stor, &opt.Options{BlockCacheCapacity: -1, OpenFilesCacheCapacity: 10})
+}
